@@ -66,7 +66,7 @@ class C48(Prop):
         'checks other than "the workflow directory is itself a run directory"',
         'cylc reinstall ID parsing (the run directory is addressed explicitly)',
     ]
-    rule = ('every history up to length 3 (quick) / 4 over a reduced alphabet (thorough) over an alphabet of 9 operations '
+    rule = ('every history up to length 3 over an alphabet of 9 operations (8 in the quick tier), length 4 over 6 of them (thorough): '
             '(numbered / named / no-run-name install, clean run1 / run2 / runN / all, remove runN, re-point runN at '
             'run1), plus random histories (3-9 ops quick, 3-14 thorough) in numbered / named / mixed styles with '
             'reinstalls, reserved and colliding run names, cleans biased to the latest and the oldest run; '
@@ -150,8 +150,10 @@ class C48(Prop):
     ]
 
     def gen(self, tier, rng):
+        # quick: the alphabet without --no-run-name (covered by the corpus and the random histories)
+        alphabet = [a for a in self.ALPHABET if a['op'] != 'flat'] if tier == 'quick' else self.ALPHABET
         for n in range(1, 4):
-            for ops in itertools.product(self.ALPHABET, repeat=n):
+            for ops in itertools.product(alphabet, repeat=n):
                 # a history that does not start with an install only exercises "nothing there"
                 if n > 1 and ops[0]['op'] in ('clean', 'cleanN', 'rmN', 'relink', 'cleanAll'):
                     continue
@@ -162,7 +164,7 @@ class C48(Prop):
                 if ops[0]['op'] in ('clean', 'cleanN', 'relink'):
                     continue
                 yield {'ops': [dict(o) for o in ops]}
-        n_rand = {'quick': 120, 'thorough': 1200, 'search': 2500}[tier]
+        n_rand = {'quick': 130, 'thorough': 1200, 'search': 2500}[tier]
         for _ in range(n_rand):
             yield self.random_case(rng, long=(tier != 'quick'))
 
